@@ -118,7 +118,27 @@ fn v1_corruption(idx: u64, rng: &mut Rng, rec: &mut Recorder) {
     // the fixed pools are enumerated by idx; every other case takes a decoration of the valid
     // value / a random near-miss instead
     let generated;
-    let bad: &str = if (idx / 12) % 2 == 1 {
+    let bad: &str = if (idx / 12) % 8 == 7 && f[e].len() >= 2 {
+        // a corruption that a checksum-like fingerprint of the line does not see: the same XOR
+        // delta on two characters 1 / 2 / 4 / 8 apart (xor folds of those widths are unchanged),
+        // or +1 / -1 on two characters (byte sums are unchanged); same length as the valid value
+        let mut v = f[e].clone().into_bytes();
+        let n = v.len();
+        let dist = *rng.pick(&[1usize, 2, 4, 8, 8, 4]);
+        let dist = if dist < n { dist } else { 1 };
+        let i = rng.below((n - dist) as u64) as usize;
+        if rng.chance(3, 4) {
+            // deltas that keep a digit a printable non-separator character
+            let d = *rng.pick(&[0x08u8, 0x01, 0x02, 0x04, 0x10, 0x40, 0x50]);
+            v[i] ^= d;
+            v[i + dist] ^= d;
+        } else {
+            v[i] = v[i].wrapping_add(1);
+            v[i + dist] = v[i + dist].wrapping_sub(1);
+        }
+        generated = String::from_utf8_lossy(&v).into_owned();
+        &generated
+    } else if (idx / 12) % 2 == 1 {
         generated = bad_spelling(rng, e, v6, &f[e]);
         &generated
     } else {
@@ -137,7 +157,7 @@ fn v1_corruption(idx: u64, rng: &mut Rng, rec: &mut Recorder) {
         }
         _ => parse_port(bad).is_err(),
     };
-    if !invalid || bad.contains(' ') || bad.contains('\r') {
+    if !invalid || bad.contains(' ') || bad.contains('\r') || bad.contains('\u{fffd}') || bad.bytes().any(|b| b < 0x20 || b >= 0x7f) && (idx / 12) % 8 == 7 {
         rec.class("skipped:replacement-not-usable", || bad.to_string());
         return;
     }
@@ -153,6 +173,37 @@ fn v1_corruption(idx: u64, rng: &mut Rng, rec: &mut Recorder) {
     if rng.chance(1, 4) {
         let ts = trailers();
         bytes.extend_from_slice(rng.pick(&ts[..]).as_slice());
+    }
+    if idx % 3 == 0 && base.len() + (bytes.len() - bytes.iter().position(|&b| b == b'\n').map(|p| p + 1).unwrap_or(bytes.len())) >= 1 {
+        // the well-formed line is parsed first, in the same buffer, through the entry point that
+        // the corrupted line goes through next (one call each, nothing in between)
+        let items = [base.clone().into_bytes(), bytes.clone()];
+        for entry in 0..5u8 {
+            let mut first = true;
+            spec::engine::placed_seq(&items, idx ^ entry as u64, |y| {
+                let o = match (entry, std::str::from_utf8(y)) {
+                    (1, Ok(t)) => v1_str(t),
+                    (2, Ok(t)) => v1_fromstr_header(t),
+                    (3, Ok(t)) => v1_fromstr_addr(t),
+                    (4, _) => match auto_parse(y) {
+                        OA::V1(o) => o,
+                        _ => return,
+                    },
+                    _ => v1_bytes(y),
+                };
+                rec.event();
+                if first {
+                    first = false;
+                } else if let O1::Ok { .. } = o {
+                    rec.violation(
+                        &format!("v1-{}:after-the-well-formed-line", ELEMENT[e]),
+                        enc_case("v1", y),
+                        format!("{}|{}", ELEMENT[e], skeleton_text(y)),
+                        format!("corrupted {} in {:?}, parsed right after the well-formed line {:?} in the same buffer (entry point #{}): accepted: {}", ELEMENT[e], show(y, 160), show(base.as_bytes(), 80), entry, o.class()),
+                    );
+                }
+            });
+        }
     }
     judge_v1(&bytes, ELEMENT[e], Some(EXPECT[e]), rec);
 }
